@@ -654,6 +654,11 @@ class RewritingContext:
             if isinstance(modification, _InsertionOrReplacement):
                 context = InsertionContext(self._module, func, block, offset)
                 if isinstance(modification.patch, Patch):
+                    # The assembler looks at Symbol.referent directly when it
+                    # resolves branch and call targets, so references that
+                    # earlier modifications left pending in the reference
+                    # cache have to be made direct before assembling.
+                    modify_cache.reference_cache.apply()
                     assembler_result = self._invoke_patch(
                         modification.patch,
                         actual_block,
